@@ -106,6 +106,27 @@ pub fn run() {
                 let rr = nodes[2].ask(&format!("L {} {} {} {}", kind, a, b, seq));
                 format!("req L={} F={} R={}", rl, rf, rr)
             }
+            // a publish whose history id is drawn by node <n>'s own sequence (that node plays the leader for this write)
+            ["reqd", n, a, b] if nodes.len() == 4 => match idx(n) {
+                Some(i) if i != 1 && i != 3 => {
+                    let d = nodes[i].ask("draw");
+                    let w: Vec<&str> = d.split_whitespace().collect();
+                    if w.len() != 3 || w[0] != "drawn" {
+                        format!("reqd nodraw {}", d)
+                    } else {
+                        seq += 1;
+                        let kind = format!("cfgsetd:{}:{}", w[1], w[2]);
+                        history.push(format!("{} {} {} {}", kind, a, b, seq));
+                        let rl = nodes[0].ask(&format!("L {} {} {} {}", kind, a, b, seq));
+                        let q = format!("Q {} {} {} {}", kind, a, b, seq);
+                        let rf = nodes[1].ask(&q);
+                        queued.push(q);
+                        let rr = nodes[2].ask(&format!("L {} {} {} {}", kind, a, b, seq));
+                        format!("reqd id={} mark={} L={} F={} R={}", w[1], w[2], rl, rf, rr)
+                    }
+                }
+                _ => "bad-op".to_string(),
+            },
             ["flush", sizes] if nodes.len() == 4 => {
                 queued.clear();
                 format!("flush {}", nodes[1].ask(&format!("F {}", sizes)))
